@@ -187,6 +187,11 @@ func cmdRun(args []string) int {
 	if *timeout > 0 {
 		cfg.TimeoutMs = *timeout
 	}
+	cfg.Fallbacks = []string{"cvc5", "z3-new"}
+	cfg.FallbackMs = 30000
+	if *tier == "thorough" {
+		cfg.FallbackMs = 180000
+	}
 	if *maxPaths > 0 {
 		cfg.MaxPaths = *maxPaths
 	}
@@ -478,7 +483,7 @@ func writeEvidence(prop, tier string, seed int, rs []*HarnessResult, wall time.D
 			"queries": map[string]int{"total": r.Queries, "sat": r.Sat, "unsat": r.Unsat, "unknown": r.Unknown, "error": r.SolverErr},
 			"solver_time_s": round2(r.SolverTime.Seconds()), "wall_s": round2(r.Wall.Seconds()),
 			"ssa_instructions_executed": r.Steps, "wraparound_encodings": r.Wraps, "nonlinear_terms": r.Nonlinear,
-			"float_roundings_relaxed": r.FloatRounds, "undecided_paths": len(r.Undecided), "unwinding_failures": len(r.Unwind),
+			"float_roundings_relaxed": r.FloatRounds, "one_shot_fallback_queries": r.FbQueries, "decided_by_fallback_solver": r.FbDecided, "undecided_paths": len(r.Undecided), "unwinding_failures": len(r.Unwind),
 			"truncated": r.Truncated, "notes": keys(r.Notes),
 		})
 	}
